@@ -246,6 +246,48 @@ func hasUse(us []calleeUse, name string) *calleeUse {
 	return nil
 }
 
+// everyReturnFromQuoting: each string/[]byte result of fn (or of the library
+// function it delegates to) is the result of Sprintf / strconv.Quote*.
+func everyReturnFromQuoting(fn *ssa.Function, depth int) bool {
+	if fn == nil || len(fn.Blocks) == 0 || depth > 2 {
+		return false
+	}
+	isQuoting := func(v ssa.Value) bool {
+		for i := 0; i < 4; i++ {
+			switch x := v.(type) {
+			case *ssa.Convert:
+				v = x.X
+				continue
+			case *ssa.ChangeType:
+				v = x.X
+				continue
+			case *ssa.Call:
+				switch calleeName(x.Common()) {
+				case "fmt.Sprintf", "strconv.Quote", "strconv.QuoteToASCII", "strconv.AppendQuote", "strconv.AppendQuoteToASCII":
+					return true
+				}
+				if f := x.Common().StaticCallee(); f != nil && inLib(f) {
+					return everyReturnFromQuoting(f, depth+1)
+				}
+			}
+			return false
+		}
+		return false
+	}
+	n := 0
+	for _, b := range fn.Blocks {
+		ret, ok := b.Instrs[len(b.Instrs)-1].(*ssa.Return)
+		if !ok || len(ret.Results) == 0 {
+			continue
+		}
+		n++
+		if !isQuoting(ret.Results[0]) {
+			return false
+		}
+	}
+	return n > 0
+}
+
 func c16Pairs(c *Ctx, pr *PropertyRun, prop string, keep func(what string) bool) {
 	p := c.P
 	r := NewRule(prop, prop+".pairs", "each wire primitive's encoder and decoder use an inverse pair of primitives with the same constants (E4)")
@@ -322,6 +364,13 @@ func c16Pairs(c *Ctx, pr *PropertyRun, prop string, keep func(what string) bool)
 				eu = nil
 			} else {
 				quoteKinds[pa.what] = kind
+			}
+			// EVERY text the encoder returns comes from the quoting call: a
+			// second path that hands some tags on verbatim ("already quoted")
+			// writes texts the decoder reads back as something else
+			if eu != nil && !everyReturnFromQuoting(enc, 0) {
+				detail += "; not every return of the encoder is the result of the quoting call"
+				eu = nil
 			}
 		}
 		ok := eu != nil && du != nil
